@@ -2,7 +2,12 @@
 import pylex
 
 PID = "C11"
-ALLOWED_AXIOMS = []
+# The parser calls Number::parse (Model/NumFmt.v), whose float arm is built from Flocq's
+# binary64 operations; Flocq defines them together with correctness proofs over the
+# standard library's real numbers, so Print Assumptions lists the four standard axioms
+# behind Coq's Reals for every statement that mentions the parser.
+ALLOWED_AXIOMS = ["Classical_Prop.classic", "ClassicalDedekindReals.sig_forall_dec",
+                  "ClassicalDedekindReals.sig_not_dec", "FunctionalExtensionality.functional_extensionality_dep"]
 CORRESPONDENCE = "lex::scan / parse::parse_text / the datum-by-datum loop vs Model/Lex.v, Model/Parse.v"
 RULE = ("random Unicode strings, token soup, mutations of generated programs (interfaces: scan, parse_text, "
         "datum-by-datum loop), and every token-boundary prefix of generated well-formed datum sequences "
@@ -10,10 +15,10 @@ RULE = ("random Unicode strings, token soup, mutations of generated programs (in
         "does not); non-trivial = the text scans to >= 2 tokens; distinct by case hash")
 ASSUMPTIONS = ["well-formedness of generated data is the generator's own construction (valid atoms, balanced brackets)"]
 KERNEL_SAMPLE = {"quick": 300, "thorough": 2500}
-MANIFEST_PENDING = dict(
+MANIFEST = dict(
     text="Coq theorems over hand-written models of lex.rs and parse.rs: the scanner is total and its tokens tile the text (non-empty, in bounds, on character boundaries, ordered, separated only by whitespace/comments); the parser consumes exactly one datum, its answer is independent of what follows, every proper token-prefix of a datum is Incomplete and a complete datum never is; parse_text's remaining text is the suffix at the next token. Tied to /repo by differential runs on random/soup/mutated texts and all token-boundary prefixes of generated data (impl / extracted model / vm_compute).",
     design="DESIGN.md section 5 C11",
-    note="Trusted: Coq kernel; hand-written model tied by sampling correspondence; number literal decoding is delegated to Model/NumFmt.v (its totality is a separate obligation); front-end loops (REPL validator, wasm) are modelled by the datum-by-datum loop of interface 5 only; extraction/driver cross-checked in-kernel on a sub-sample. Axioms: none.",
+    note="Trusted: Coq kernel; hand-written model tied by sampling correspondence; number literal decoding is delegated to Model/NumFmt.v (its totality is a separate obligation); front-end loops (REPL validator, wasm) are modelled by the datum-by-datum loop of interface 5 only; extraction/driver cross-checked in-kernel on a sub-sample. Axioms: scanner theorems closed under the global context; theorems mentioning the parser inherit, through Flocq's binary64 definitions used by the number-literal decoder, the four standard-library axioms of Coq's Reals (Classical_Prop.classic, ClassicalDedekindReals.sig_forall_dec, sig_not_dec, FunctionalExtensionality.functional_extensionality_dep).",
     technique="Rocq/Coq proof (induction on fuel/token lists) + model/implementation correspondence check")
 
 SYMS = ["a", "b", "foo", "+", "-", "...", "a.b", "x1", "set!", "λ", "->x", "list", "quote", "<=?", "if", "1+", "-x", ".a"]
